@@ -22,6 +22,16 @@ def ddmin(items, test, max_tests=400):
 
 def shrink_case(case, still_fails, max_tests=300):
     """case.prog shrunk line-wise while still_fails(case) holds"""
+    if case.mode == "repl":
+        lines = case.stdin.split(b"\n")
+        def testr(ls):
+            c = copy.copy(case); c.stdin = b"\n".join(ls); c.meta = dict(case.meta); c.meta.pop("units", None)
+            try: return still_fails(c)
+            except Exception: return False
+        if not testr(lines): return case
+        ls = ddmin(lines, testr, max_tests)
+        c = copy.copy(case); c.stdin = b"\n".join(ls)
+        return c
     lines = case.prog.split(b"\n")
     def test(ls):
         c = copy.copy(case); c.prog = b"\n".join(ls)
